@@ -348,6 +348,7 @@ func ruleFillShape(c *Ctx) {
 				nSel++
 				ok := !x.Blocking && len(x.States) == 1
 				// the channel must be the value of a range over statusMap
+				var nextBlock *ssa.BasicBlock
 				if ok {
 					ex, isE := x.States[0].Chan.(*ssa.Extract)
 					ok = false
@@ -355,7 +356,16 @@ func ruleFillShape(c *Ctx) {
 						if nx, isN := ex.Tuple.(*ssa.Next); isN {
 							if rg, isR := nx.Iter.(*ssa.Range); isR && describe(rg.X) == "statusCollector.statusMap" {
 								ok = true
+								nextBlock = nx.Block()
 							}
+						}
+					}
+				}
+				// a full channel moves on to the NEXT channel (back to the range), it does not end the whole fill
+				if ok && nextBlock != nil {
+					for _, sc := range in.Block().Succs {
+						if sc != in.Block() && sc != nextBlock && !reachableFrom(sc, nil)[nextBlock] {
+							ok = false
 						}
 					}
 				}
